@@ -2,5 +2,5 @@ SPECIFICATION Spec
 CONSTANTS
   ProtoSet = {0, 2, 4, 9}
   MaxProto = 4
-INVARIANTS NoBinaryWithoutTunnel ProtocolClamped OnlyAdds ActOnlyNarrows Export
+INVARIANTS NoBinaryWithoutTunnel ProtocolClamped OnlyAdds NewlineAsDirect ActOnlyNarrows Export
 CHECK_DEADLOCK FALSE
